@@ -8,6 +8,31 @@ from common import TICK, stable_hash, to_ticks
 from gradysim.simulator.event import EventLoop, EventLoopException
 
 
+class _Job:
+    """a unit of work whose `run` method is handed to the loop as the callback"""
+
+    def __init__(self, ident):
+        self.ident = ident
+
+    def run(self):
+        return self.ident
+
+
+def make_callback(ident, kept):
+    """the callable shapes user code hands to schedule_event: a lambda, a functools.partial, the bound
+    method of an object nobody else keeps (`loop.schedule_event(t, Job(x).run)`) and of one that is kept"""
+    import functools
+    shape = ident % 4
+    if shape == 0:
+        return lambda i=ident: i
+    if shape == 1:
+        return functools.partial(int, ident)
+    job = _Job(ident)
+    if shape == 3:
+        kept.append(job)
+    return job.run
+
+
 def gen_history(seed, max_ops=60, alphabet=None, p_clear=0.03):
     r = random.Random(stable_hash("el", seed))
     fine = alphabet is None and r.random() < 0.15
@@ -60,6 +85,7 @@ def run_impl(case):
         from common import to_ticks as tt
         return tt(t, TICK)
     loop = EventLoop()
+    kept = []
     out = []
     crash = None
     try:
@@ -68,7 +94,7 @@ def run_impl(case):
             if name == "schedule":
                 ident = op[2]
                 try:
-                    loop.schedule_event(op[1] / TICK, (lambda i=ident: i), f"ev{ident}")
+                    loop.schedule_event(op[1] / TICK, make_callback(ident, kept), f"ev{ident}")
                     out.append("ok")
                 except EventLoopException:
                     out.append("past")
